@@ -108,6 +108,9 @@ func MakeHarnessFun(f ref.FunSig, tr *Tracer) *val.Val {
 	switch base {
 	case "tr":
 		impl = func(args ...*val.Val) *val.Val {
+			if h := tr.Hook; h != nil {
+				h()
+			}
 			tr.Add(traceLine("tr", []string{renderYae(args[0]), renderYae(args[1])}))
 			return args[1]
 		}
